@@ -300,4 +300,51 @@ theorem filterMap_getElem {α β : Type} (f : α → Option β) : ∀ (l : List 
       | none => simpa [List.filterMap_cons, hx] using this
       | some y => simpa [List.filterMap_cons, hx] using this
 
+/-! ## `used_mark_sets_map` -/
+
+theorem usedGo_lookup (p : LPlan) : ∀ (sets : List (Option Coverage)) (k b i : Nat) (c : Coverage),
+    (∀ s ∈ sets, s ≠ none) → sets[i]? = some (some c) → setUsed p (some c) = true →
+    ((usedGo p sets k).zipIdx b).lookup (k + i) =
+      some (b + ((sets.take i).filter (setUsed p)).length) := by
+  intro sets
+  induction sets with
+  | nil => intro k b i c _ h; simp at h
+  | cons s rest ih =>
+    intro k b i c hall h hu
+    have hrest : ∀ s ∈ rest, s ≠ none := fun s hs => hall s (List.mem_cons_of_mem _ hs)
+    cases s with
+    | none => exact absurd rfl (hall none (List.mem_cons_self ..))
+    | some c0 =>
+      cases i with
+      | zero =>
+        simp at h; subst h
+        simp [usedGo, hu, List.zipIdx_cons, List.lookup_cons]
+      | succ j =>
+        simp at h
+        have := ih (k + 1) (b + 1) j c hrest h hu
+        have := ih (k + 1) b j c hrest h hu
+        by_cases hu0 : setUsed p (some c0) = true
+        · have ne : (k + (j + 1) == k) = false := by simp
+          have := ih (k + 1) (b + 1) j c hrest h hu
+          simp only [usedGo, hu0, ↓reduceIte, List.cons_append, List.nil_append, List.zipIdx_cons,
+            List.lookup_cons, ne, List.take_succ_cons, List.filter_cons, List.length_cons]
+          rw [show k + (j + 1) = k + 1 + j by omega, this]
+          congr 1; omega
+        · simp only [usedGo, hu0, Bool.false_eq_true, ↓reduceIte, List.nil_append,
+            List.take_succ_cons, List.filter_cons]
+          rw [show k + (j + 1) = k + 1 + j by omega, this]
+
+theorem filter_filterMap_length {α β : Type} (q : α → Bool) (f : α → Option β) :
+    ∀ (l : List α), (∀ x ∈ l, q x = (f x).isSome) → (l.filter q).length = (l.filterMap f).length := by
+  intro l
+  induction l with
+  | nil => intro _; rfl
+  | cons x t ih =>
+    intro h
+    have hx := h x (List.mem_cons_self ..)
+    have := ih (fun y hy => h y (List.mem_cons_of_mem _ hy))
+    cases hf : f x with
+    | none => simp [List.filter_cons, List.filterMap_cons, hf, hx, this]
+    | some y => simp [List.filter_cons, List.filterMap_cons, hf, hx, this]
+
 end FontVerif.SubsetGdef
